@@ -94,7 +94,7 @@ def run_lines(ck, exe, lines, timeout=900, env=None):
         answers.append("CRASH " + what)
         i += 1
         guard += 1
-        if guard > 50:
+        if guard > 12:
             answers += ["CRASH (too many crashes, run abandoned)"] * (len(lines) - i)
             break
     return answers, crashes
